@@ -237,8 +237,51 @@ def two_reports_case(verbosity_name):
     return probs
 
 
+def namesake_results_case():
+    '''one section holding several results whose TESTS share class, name and description (tests created in a loop with one name, external tests without a name): every
+    result is on the page of the section'''
+    import numpy as np
+    from collections import OrderedDict
+    from valjean.eponine.dataset import Dataset
+    from valjean.gavroche.test import TestEqual
+    from valjean.javert.representation import Representation, TableRepresenter
+    from valjean.javert.rst import Rst
+    from valjean.javert.test_report import TestReport
+    from valjean.javert.verbosity import Verbosity
+    bins = OrderedDict([('e', np.array([1., 2., 3.]))])
+    res = []
+    for k, marker in enumerate(('alphaset', 'betaset', 'gammaset')):
+        ref = Dataset(np.array([10., 20.]) + k, np.full(2, 0.5), bins=bins, name='ref_' + marker)
+        oth = Dataset(np.array([10., 21.]) + k, np.full(2, 0.5), bins=bins, name=marker)
+        res.append(TestEqual(ref, oth, name='comparison', description='same name and description').evaluate())
+    # external results (a template supplied by the user): the test is only a name and a description
+    from valjean.javert.test_external import TestExternal
+    from valjean.javert.templates import TextTemplate
+    for marker in ('deltaset', 'epsilonset'):
+        res.append(TestExternal(TextTemplate(marker + ' was checked by hand\n'), name='external check', description='', success=True).evaluate())
+    report = TestReport(title='Root', content=[TestReport(title='namesakes', content=res)])
+    base = tempfile.mkdtemp(prefix='c20n_', dir='/var/tmp')
+    probs = []
+    try:
+        from valjean.javert.representation import FullRepresenter      # (external templates are rendered by the full representer)
+        Rst(Representation(FullRepresenter(), verbosity=Verbosity.FULL_DETAILS)).format_report(report=report, author='me', version='1').write(os.path.join(base, 'r'))
+        text = '\n'.join(open(os.path.join(dp, fn)).read() for dp, _, fns in os.walk(os.path.join(base, 'r')) for fn in sorted(fns) if fn.endswith('.rst'))
+        for marker in ('alphaset', 'betaset', 'gammaset', 'deltaset', 'epsilonset'):
+            if marker not in text:
+                probs.append(f'the result comparing {marker!r} is not on any page of the report (results of tests named alike in one section)')
+    except Exception as e:      # noqa
+        probs.append(f'raised {e!r}')
+    finally:
+        shutil.rmtree(base, ignore_errors=True)
+    return probs
+
+
 def sweep(tier, seed, known=()):
     fails, n = [], 0
+    n += 1
+    probs = namesake_results_case()
+    if probs:
+        fails.append({'input': {'namesake_results': True}, 'observed': probs[:3], 'expected': 'every result of the report is on the page of its section'})
     for vb in ('SUMMARY', 'DEFAULT', 'FULL_DETAILS'):
         n += 1
         probs = two_reports_case(vb)
@@ -256,7 +299,7 @@ def sweep(tier, seed, known=()):
             fails.append({'input': {'report': _show(shape)}, 'observed': probs[:3], 'expected': 'C20 oracle'})
     return {'name': 'written-report-native', 'evaluations': n, 'distinct': n, 'failures': fails, 'exhaustive': True,
             'bound': f'report trees of depth <= 3 over titles {TITLES if tier != "quick" else "a, b, index, conf, empty, ., a/b, v1.2 x"} (one and two children, nested, repeated, '
-                     'empty sections), one result per marked section; files inspected after FormattedRst.write; one report with plots written sequentially and with 2 worker processes; two reports formatted by one Rst object and written afterwards (3 verbosities)',
+                     'empty sections), one result per marked section; files inspected after FormattedRst.write; one report with plots written sequentially and with 2 worker processes; two reports formatted by one Rst object and written afterwards (3 verbosities); three results of tests named alike in one section',
             'samples': [_show(('Root', 0, [('a', 1, []), ('index', 1, [])]))]}
 
 
@@ -271,6 +314,9 @@ def _unshow(d):
 def replay(inp):
     if inp.get('two_reports_one_formatter'):
         probs = two_reports_case(inp.get('verbosity', 'DEFAULT'))
+        return {'reproduced': bool(probs), 'observed': probs}
+    if inp.get('namesake_results'):
+        probs = namesake_results_case()
         return {'reproduced': bool(probs), 'observed': probs}
     if inp.get('figures'):
         probs = figures_case(inp.get('n_workers'))
